@@ -856,8 +856,71 @@ def two_receivers(res, rng):
             return
 
 
+def long_message_small_reads(res):
+    """"for every message length": a megabyte-sized snapshot arriving in 32-byte reads.  The clock double shows the
+    acceptance time plus the PROCESSOR time this thread has spent since (the network itself is infinitely fast here), so the
+    only way the receive timeout can fire is the handler's own work per read growing with what has already arrived.
+    Runtime behaviour, not a theorem: the work the unchanged handler does is a few per cent of the timeout, what a per-read
+    copy of the whole buffer costs is several times the timeout."""
+    import time as _time
+    case = {'kind': 'long-message-small-reads', 'pad': 3_000_000, 'recv_bytes': 32}
+    res.add_case(case, nontrivial=True)
+    res.count('long_message_small_reads')
+    m = seal('b kb 2 0 ' + payload_json(n_updated=1, pad=case['pad']), b'\x07' * 16)
+    rig = Rig(32, 0)
+
+    class Stream:
+        def __init__(self, data):
+            self.data, self.at, self.closed, self.reads = memoryview(data), 0, 0, 0
+
+        def settimeout(self, t):
+            pass
+
+        def recv(self, n):
+            self.reads += 1
+            out = bytes(self.data[self.at:self.at + n])
+            self.at += len(out)
+            if not out:
+                raise socket.timeout('timed out')
+            return out
+
+        def close(self):
+            self.closed += 1
+
+    class CpuClock:
+        def __init__(self):
+            self.t0 = _time.thread_time()
+
+        def time(self):
+            return ACCEPTED + 0.5 + (_time.thread_time() - self.t0)
+    s = Stream(m)
+    before = rig.t._queue_incoming.qsize()
+    old = tcp_mod.time
+    clock = CpuClock()
+    tcp_mod.time = clock
+    try:
+        try:
+            rig.t._tcp_incoming_handle_client(s, '10.0.0.2', ACCEPTED)
+            out = 'accepted'
+        except BaseException as e:   # noqa
+            out = exc_enum(e)
+    finally:
+        tcp_mod.time = old
+    spent = _time.thread_time() - clock.t0
+    res.count('long_message_cpu_ms', int(spent * 1000))
+    if rig.t._queue_incoming.qsize() != before + 1:
+        res.violations.append(Violation(
+            'dropped-complete-message',
+            f"a {len(m)}-byte message delivered completely in 32-byte reads ({s.reads} reads, {s.at} bytes read) was not applied: the "
+            f"handler ended with {out} after {spent:.1f} s of its own processor time (receive timeout {T_RECV} s; the same bytes in "
+            f"large reads are applied)", case))
+
+
 def run(ctx: Ctx) -> Result:
     res = Result()
+    if ctx.replay is not None and ctx.replay['replay'].get('kind') == 'long-message-small-reads':
+        long_message_small_reads(res)
+        return res
     if ctx.replay is not None and ctx.replay['replay'].get('kind') == 'two-receivers':
         two_receivers(res, ctx.rng)
         return res
@@ -876,6 +939,7 @@ def run(ctx: Ctx) -> Result:
             res.notes.append('F9: no ciphertext with the marker at a boundary found within the budget')
     run_cases(ctx, list(cases(ctx)) + extra, res)
     two_receivers(res, ctx.rng)
+    long_message_small_reads(res)
     res.exhaustive = True
     return res
 
@@ -917,7 +981,8 @@ SPEC = PropSpec(
     translators=['frame'],
     run=run,
     search=search,
-    rule='valid messages produced by the real encrypt (13 lengths 52 … 4100: every residue of len mod 64, last reads of 4/20/36 bytes '
+    rule='(runtime probe, not a theorem: a 3 MB message in 32-byte reads under a clock showing the handler thread\'s own processor time) '
+         'valid messages produced by the real encrypt (13 lengths 52 … 4100: every residue of len mod 64, last reads of 4/20/36 bytes '
          'with recv_bytes 2048): all two-way cuts (windows around both ends and the read boundaries for messages > 700 bytes in quick), '
          'all three-way cuts of the two shortest, uniform read sizes 1..64, seeded random cuts (1-6 cut points, recv_bytes 17/64/2048, '
          'new sender addresses), truncation at every byte of one message (three in thorough) closed and silent, under non-monotone '
